@@ -8,6 +8,7 @@ import (
 	"go/types"
 	"os"
 	"path/filepath"
+	"sort"
 	"strings"
 	"sync"
 	"time"
@@ -164,6 +165,26 @@ func (x *Exec) verifyBody(fn *ssa.Function, c *Contract, res *FuncResult) {
 	}
 	x.topFrame = fr
 	fr.entry = st.clone()
+	// invariants given for loops this function no longer has: candidates for helper loops
+	if nloops := len(findLoops(fn)); len(c.Loops) > 0 {
+		var ords []int
+		for n := range c.Loops {
+			if n > nloops {
+				ords = append(ords, n)
+			}
+		}
+		sort.Ints(ords)
+		for _, n := range ords {
+			for _, inv := range c.Loops[n].Invariants {
+				for _, e := range splitConjuncts(inv.E) {
+					x.orphanInvs = append(x.orphanInvs, &Clause{Kind: inv.Kind, Src: e.String(), E: e, Line: inv.Line, File: inv.File})
+				}
+			}
+		}
+		if len(x.orphanInvs) > 0 {
+			x.note("%s: the contract has invariants for %d loop(s) the function no longer has; they are tried as candidate invariants on the loops of helpers without a contract", funcKey(fn), len(ords))
+		}
+	}
 	// requires
 	env := x.paramEnv(fr, st)
 	var reqs []string
@@ -680,4 +701,12 @@ func (x *Exec) addOblKF(o *Obligation, env *Env) {
 		inside.KF = k
 		x.addObl(&inside)
 	}
+}
+
+// splitConjuncts: the top-level conjuncts of a clause.
+func splitConjuncts(e CExpr) []CExpr {
+	if b, ok := e.(*CBin); ok && b.Op == "&&" {
+		return append(splitConjuncts(b.L), splitConjuncts(b.R)...)
+	}
+	return []CExpr{e}
 }
